@@ -23,14 +23,17 @@ func C17_caller_bytes() {
 	}
 	keep := append([]byte{}, p...)
 	dst := &vDst{failAt: -1}
+	// the client state as applications hold it: alone, or with the extension / fragmentation
+	// flags that come with negotiated extensions
+	st := ws.StateClientSide | []ws.State{0, ws.StateExtended, ws.StateFragmented | ws.StateExtended}[vChoose("stateflags", 3)]
 	switch vChoose("api", 4) {
 	case 0:
 		vAssert(WriteClientMessage(dst, ws.OpBinary, p) == nil, "caller.writemessage_ok")
 	case 1:
-		w := NewWriterSize(dst, ws.StateClientSide, ws.OpBinary, 4)
+		w := NewWriterSize(dst, st, ws.OpBinary, 4)
 		w.WriteThrough(p)
 	case 2:
-		w := NewWriterSize(dst, ws.StateClientSide, ws.OpBinary, 4)
+		w := NewWriterSize(dst, st, ws.OpBinary, 4)
 		w.Write(p)
 		w.Flush()
 	case 3:
